@@ -30,6 +30,7 @@ SYS_WRITE = {1, 20}                        # write, writev (blocked on a full pi
 
 ALWAYS_VISIBLE = {"select", "lock-wait", "select-order", "script", "start", "exit", "log-poll"}
 YIELD_LABELS = ("timer", "poll")   # chosen by default only when nothing else is enabled
+ENV_KIND = "env"                   # environment-player actions: never chosen by default
 
 
 class SchedError(Exception):
@@ -81,7 +82,10 @@ def proc_syscall(pid):
 
 
 class Scheduler:
-    def __init__(self, workdir, sockpath, lockfile, visible, chooser, max_steps=4000, step_timeout=20.0, poll_at=None):
+    def __init__(self, workdir, sockpath, lockfile, visible, chooser, max_steps=4000, step_timeout=20.0, poll_at=None,
+                 kill_roots=(), max_kills=1):
+        self.kill_roots = list(kill_roots)   # environment player "user": may SIGKILL the whole tree of these invocations
+        self.kills_left = max_kills if kill_roots else 0
         self.poll_at = poll_at          # script-gate label prefix after which a pending log poll runs first by default
         self.polled_for = None
         self.workdir = workdir
@@ -442,6 +446,13 @@ class Scheduler:
                 live = [pid for pid in self.live_pids() if (proc_stat(pid) or ("Z", 0))[0] not in ("Z", "X")]
                 if not live:
                     break
+            if self.kills_left > 0:
+                for r in self.roots:
+                    if r["name"] in self.kill_roots and r["rc"] is None and any(
+                            p.lid.startswith(r["name"] + ".") and not p.dead for p in self.procs.values()):
+                        choices.append(("ENV", 0, "env", "kill:" + r["name"], ""))
+            if choices and all(c[2] == "env" for c in choices):
+                choices = []      # an environment action alone never hides a deadlock
             if not choices and self.sleeping:
                 # everything else is blocked and a process busy-waits for the database: give it real time
                 t_end = time.monotonic() + 8.0
@@ -466,7 +477,7 @@ class Scheduler:
                 break
             gs = self.global_state()
             self.state_hashes.add(gs)
-            if all(c[3] in YIELD_LABELS for c in choices):
+            if all(c[3] in YIELD_LABELS or c[2] == ENV_KIND for c in choices):
                 only_timer_states[gs] = only_timer_states.get(gs, 0) + 1
                 if only_timer_states[gs] >= 8:
                     verdict = "livelock"
@@ -483,24 +494,32 @@ class Scheduler:
                     self.polled_for = (cur[0][0], self.step_no_of_park.get(cur[0][0]))
             if default is None:
                 for i, c in enumerate(choices):
-                    if c[3] not in YIELD_LABELS and c[3] != "1" and same_thread(c[0], self.last_lid):
+                    if c[2] != ENV_KIND and c[3] not in YIELD_LABELS and c[3] != "1" and same_thread(c[0], self.last_lid):
                         default = i
                         break
             if default is None:
                 for i, c in enumerate(choices):
-                    if c[3] not in YIELD_LABELS and c[3] != "1":
+                    if c[2] != ENV_KIND and c[3] not in YIELD_LABELS and c[3] != "1":
                         default = i
                         break
             if default is None:
                 # only timers / polls are enabled: be fair among them (least recently run first), so that a
                 # polling follower cannot starve a process whose timer is about to fire, and vice versa
-                default = min(range(len(choices)), key=lambda i: (self.last_run.get(choices[i][0], -1), i))
+                cand = [i for i in range(len(choices)) if choices[i][2] != ENV_KIND] or list(range(len(choices)))
+                default = min(cand, key=lambda i: (self.last_run.get(choices[i][0], -1), i))
             idx = self.chooser(self.step_no, choices, default)
             if idx is None:
                 idx = default
             if not (0 <= idx < len(choices)):
                 raise SchedError("chooser picked %r of %d choices at step %d" % (idx, len(choices), self.step_no))
             lid, pid, kind, label, detail = choices[idx]
+            if kind == "env":
+                self.steps.append({"i": self.step_no, "enabled": [(c[0], c[2], c[3]) for c in choices], "chosen": idx,
+                                   "default": default, "lid": lid, "kind": kind, "label": label, "detail": ""})
+                self.step_no += 1
+                self.kills_left -= 1
+                self.kill_tree(label.split(":", 1)[1])
+                continue
             self.steps.append({"i": self.step_no, "enabled": [(c[0], c[2], c[3]) for c in choices], "chosen": idx,
                                "default": default, "lid": lid, "kind": kind, "label": label,
                                "detail": normalise_detail(detail, self.procs)})
@@ -519,6 +538,37 @@ class Scheduler:
                 pass
         self.reap()
         return verdict
+
+    def kill_tree(self, rootname):
+        """SIGKILL the root invocation and every process descended from it (the user presses ^C / kill -9 -pgid)."""
+        root = next(r for r in self.roots if r["name"] == rootname)
+        parent = {}
+        for pid in self.live_pids():
+            st = proc_stat(pid)
+            if st:
+                parent[pid] = st[1]
+        victims = set()
+        for p in self.procs.values():
+            if p.lid == rootname or p.lid.startswith(rootname + ".") or p.lid.startswith(rootname + "/"):
+                victims.add(p.pid)
+        grew = True
+        while grew:
+            grew = False
+            for pid, pp in parent.items():
+                if pp in victims and pid not in victims:
+                    victims.add(pid)
+                    grew = True
+        victims.add(root["popen"].pid)
+        self.events.append((self.step_no, "ENV", "kill", rootname))
+        for pid in victims:
+            try:
+                os.kill(pid, 9)
+            except ProcessLookupError:
+                pass
+        for p in self.procs.values():
+            if p.pid in victims:
+                p.gate = None
+                p.dead = True
 
     def kill_all(self):
         for pid in self.live_pids():
